@@ -161,6 +161,8 @@ def run_prog(serdes, stmts, kinds_for_bytes=None):
             serdes.computed_value(t, s[2])
         elif op == "settype":
             serdes.set_context_type(TYPES[s[2]])
+        elif op == "settypen":
+            serdes.set_context_type(dyn_type(t))
 
 
 def prim(serdes, t, k):
@@ -403,6 +405,155 @@ def strip_rng(ctx):
                     strip_rng(w[1])
 
 
+DYN = {}
+
+
+def dyn_type(name):
+    """one dict subclass per sub-description NAME (the model keys default tables by that name)"""
+    if name == "":
+        return dict
+    if name not in DYN:
+        DYN[name] = type("T_" + name, (dict,), {})
+    return DYN[name]
+
+
+def retype(stmts):
+    """drop the random set_context_type statements and make every sub-description body begin by setting ITS type"""
+    out = []
+    for s in stmts:
+        op = s[0]
+        if op == "settype":
+            continue
+        if op == "sub":
+            out.append(("sub", s[1], [("settypen", s[1])] + retype(s[2])))
+        elif op == "slist":
+            out.append(("slist", s[1], [[("settypen", s[1])] + retype(b) for b in s[2]]))
+        elif op == "block":
+            out.append(("block", s[1], s[2], retype(s[3])))
+        else:
+            out.append(s)
+    return out
+
+
+def positional(stmts):
+    return any(s[0] in ("block", "align") or (s[0] == "sub" and positional(s[2])) or (s[0] == "slist" and any(positional(b) for b in s[2]))
+               for s in stmts)
+
+
+def omit(rng, g, stmts, ctx, name, table, same=False):
+    """remove values from the description, recording a default for (context name, target): mostly the removed
+    value itself (so that bounded-block lengths still fit), sometimes another value; also defaults for targets
+    that ARE supplied (they must be ignored)"""
+    for s in stmts:
+        op, t = s[0], s[1]
+        if op == "prim":
+            if s[2][0] == "bytes" or t not in ctx:
+                continue
+            c = rng.random()
+            if c < 0.3:
+                v = ctx.pop(t)
+                if rng.random() < 0.9:
+                    table[(name, t)] = v if (same or rng.random() < 0.85) else g.value(s[2])
+            elif c < 0.4:
+                table[(name, t)] = g.value(s[2])
+        elif op == "plist":
+            ks = s[2]
+            if t not in ctx or not ks or any(k[0] == "bytes" for k in ks) or rng.random() > 0.35:
+                continue
+            vals = ctx[t][1]
+            j = rng.randrange(1, len(vals) + 1) if vals else 0
+            # one default serves every missing element: keep to tails whose elements are all of one kind
+            # (a default of another kind is coerced by the real writer - bool(0), int(bitarray) - not modelled)
+            while j and (len(set(ks[len(vals) - j:])) > 1 or (same and len(set(repr(v) for v in vals[len(vals) - j:])) > 1)):
+                j -= 1
+            if j:
+                table[(name, t)] = vals[len(vals) - j]
+                del vals[len(vals) - j:]
+                if not vals and rng.random() < 0.5:
+                    del ctx[t]
+        elif op == "sub":
+            if t in ctx:
+                omit(rng, g, s[2], ctx[t][1], t, table, same)
+                if not ctx[t][1] and rng.random() < 0.5:
+                    del ctx[t]
+        elif op == "slist":
+            if t in ctx:
+                vals = ctx[t][1]
+                for b, v in zip(s[2], vals):
+                    omit(rng, g, b, v[1], t, table, same)
+                while vals and not vals[-1][1] and rng.random() < 0.5:
+                    vals.pop()
+        elif op == "block":
+            omit(rng, g, s[3], ctx, name, table, same)
+
+
+def make_default_case(rng):
+    """-> (program, description with omissions, {(context name, target): default value})"""
+    g = Gen(rng)
+    stmts, ctx = g.body(0)
+    with_rng(ctx, rng)
+    sizes(stmts, ctx, 0)
+    strip_rng(ctx)
+    stmts = retype(stmts)
+    table = {}
+    # where bit positions matter (byte alignment, bounded blocks) the default is the removed value itself, so that the
+    # padding values of the description still have exactly the right length (shorter ones are zero-padded by the real
+    # writer, by documented design; the model wants the exact length)
+    omit(rng, g, stmts, ctx, "", table, same=positional(stmts))
+    return stmts, ctx, table
+
+
+def real_serialise_defaults(stmts, ctx, table):
+    from vc2_conformance.bitstream.io import BitstreamWriter
+    from vc2_conformance.bitstream.serdes import Serialiser
+
+    pyctx = to_py(("d", ctx))
+    bytes_fix(stmts, pyctx)
+    dv = {}
+    for (name, t), v in table.items():
+        dv.setdefault(dyn_type(name), {})[t] = to_py(v)
+    f = BytesIO()
+    w = BitstreamWriter(f)
+    try:
+        with Serialiser(w, pyctx, default_values=dv) as ser:
+            run_prog(ser, stmts)
+        bytepos, bitpos = w.tell()
+        w.flush()
+    except Exception as e:  # noqa
+        return ("FAIL", type(e).__name__)
+    nbits = bytepos * 8 + (7 - bitpos)
+    return ("OK", bits_of_bytes(f.getvalue())[:nbits])
+
+
+def show_table(table):
+    out = []
+    for (name, t), v in sorted(table.items()):
+        out += [name or "_", t] + show_val(v)
+    return out
+
+
+def default_lines(rng, n, count):
+    """the Serialiser WITH a default table: written bits, and the description the real Deserialiser reads back from them
+    (the completed one), against the model's serialiseD"""
+    lines, exp = [], []
+    for _ in range(n):
+        stmts, c, table = make_default_case(rng)
+        lines.append("sd F %s :: %s :: %s" % (" ".join(show_stmts(stmts)), " ".join(show_entries(c)), " ".join(show_table(table))))
+        r = real_serialise_defaults(stmts, c, table)
+        if r[0] != "OK":
+            exp.append("FAIL")
+            count("sd:defaults:ser-fail:%s" % r[1])
+            continue
+        d = real_deserialise(stmts, r[1])
+        if d[0] != "OK" or d[2] != len(r[1]):
+            exp.append("UNREADABLE %s" % (d[1] if d[0] != "OK" else "bits left"))
+            count("sd:defaults:unreadable")
+            continue
+        exp.append("OK %s | %s" % ("".join("1" if b else "0" for b in r[1]) or "-", canon(d[1])[2:-1]))
+        count("sd:defaults:ok:%d-omitted" % min(len(table), 5))
+    return lines, exp
+
+
 def make_case(rng):
     g = Gen(rng)
     stmts, ctx = g.body(0)
@@ -498,7 +649,7 @@ def violates(stmts, ctx):
 
 class Prop(object):
     id = "C21"
-    lean_modules = ["VC2.Props.C21"]
+    lean_modules = ["VC2.Props.C21", "VC2.Props.C21Defaults"]
     status = "partial"
     rule = ("random description programs (depth <= 4, up to ~40 statements: all seven primitive kinds with several widths, list targets, nested sub-descriptions, "
             "lists of sub-descriptions, bounded blocks with 0-10 bits of trailing padding OR ending inside their contents (the bits past the end being 1s), byte alignment, computed values) with exactly matching random descriptions, "
@@ -508,7 +659,8 @@ class Prop(object):
                "bitarray, BytesIO"]
     assumptions = ["bit arrays and byte strings have exactly the requested length (shorter values are zero-padded by the real writer, by documented design)",
                    "byte_align inside a bounded block and nested bounded blocks are refused by the model (the real framework refuses nesting too; bitstream/vc2.py uses neither)",
-                   "no default_values table (missing value = error); set_context_type is represented by a computed `__type__` entry"]
+                   "default_values: modelled for primitive and primitive-list targets (Model/SerdesDefaults.lean), a context's type being represented by the name it is entered by; "
+                   "padding targets of bounded blocks and byte_align stay mandatory in the model; set_context_type is otherwise represented by a computed `__type__` entry"]
 
     def correspond(self, ctx):
         rng = ctx.rng("sd")
@@ -546,6 +698,9 @@ class Prop(object):
         ctx.diff("sd deserialise (with arbitrary trailing bits): description and bits consumed, model == real Deserialiser", dl, de)
         ctx.diff("sd corrupted descriptions (extra / missing value, wrong list length, supplied computed value): same outcome, model == real Serialiser", fl, fe,
                  nontrivial=lambda l, e: True)
+        lines, exp = default_lines(rng, ctx.n(600, 10000), ctx.count)
+        ctx.diff("sd F Serialiser WITH a default table (random omissions: primitive targets, list tails, whole lists and sub-descriptions; defaults per context type; "
+                 "defaults for supplied targets too): bits and the description read back, model serialiseD == real", lines, exp)
 
     def findings(self, ctx):
         return [self._bad] if self._bad else []
